@@ -7,7 +7,7 @@ import ast
 from .interp import AV, TOP, const, cval, has_const, join, join_all
 from .kinds import Mono, is_cart, is_fdiff, is_frac, is_fractional, num
 from .model_base import deps_union
-from .model_numpy import XYZ, axis_arg, fresh, mono_of, removed_axes
+from .model_numpy import XYZ, axis_arg, closes_wrap, flip_axis, fresh, is_zero_fill, mono_of, norm_cmp, opnodes, removed_axes
 from .source import norm_text
 
 LINEAR_REDUCERS = {'sum', 'mean', 'average', 'nanmean', 'nansum', 'median'}
@@ -38,6 +38,9 @@ def as_array(av):
     return av
 
 
+_NP_CMP = {'equal': ast.Eq, 'not_equal': ast.NotEq, 'greater': ast.Gt, 'greater_equal': ast.GtE, 'less': ast.Lt, 'less_equal': ast.LtE}
+
+
 class NpCalls:
     def np_call(self, interp, st, name, args, kwargs, node, frame):
         """numpy.<name>(...)"""
@@ -65,7 +68,14 @@ class NpCalls:
                 x = fresh(x)
             if name == 'ravel':
                 x = x.w(axes=('flat',))
-            return x.w(deps=d, rows=None, colvals=None) if name in ('flip', 'fliplr', 'flipud') else x.w(deps=d)
+            if name in ('flip', 'fliplr', 'flipud'):
+                ax = {'fliplr': 1, 'flipud': 0}.get(name)
+                if name == 'flip':
+                    ax = axis_arg(args, kwargs, 1)
+                return flip_axis(x.w(deps=d, rows=None, colvals=None), ax)
+            return x.w(deps=d)
+        if name in _NP_CMP and len(args) >= 2:
+            return self.compare(interp, st, as_array(args[0]), [_NP_CMP[name]()], [args[1]], node)
         if name in ('add', 'subtract', 'multiply', 'divide', 'mod', 'power', 'maximum', 'minimum', 'remainder',
                     'floor_divide', 'true_divide', 'matmul', 'fmod'):
             op = {'add': ast.Add(), 'subtract': ast.Sub(), 'multiply': ast.Mult(), 'divide': ast.Div(),
@@ -78,7 +88,7 @@ class NpCalls:
                 r = self.binop(interp, st, op, a, b, node)
                 # np.mod(x, 1): text operands for idiom matching
                 if name in ('mod', 'remainder'):
-                    r = r.w(bin=('%', a, b, norm_text(node.args[0]) if node is not None and node.args else None, None))
+                    r = r.w(bin=('%', a, b, interp.sx(node.args[0]) if node is not None and node.args else None, None))
                 return r.w(ty='ndarray' if a.ty == 'ndarray' or b.ty == 'ndarray' else r.ty)
             return join_all([as_array(a) for a in args[:2]]).w(deps=d, const=None, store='fresh')
         if name in ('zeros', 'ones', 'empty', 'full', 'zeros_like', 'ones_like', 'empty_like', 'full_like', 'eye',
@@ -147,7 +157,7 @@ class NpCalls:
         out = AV(ty='ndarray', deps=d, store='fresh', fresh=True, axes=('k',), arange=list(args), dtype='int' if all(
             a.ty == 'int' for a in args) else None, sorted=True)
         if len(args) == 1:
-            out = out.w(symlen=args[0].sym if args[0].sym is not None else ('v', norm_text(node.args[0])), idx=args[0].lenof.idx if args[0].lenof is not None else None,
+            out = out.w(symlen=args[0].sym if args[0].sym is not None else ('v', norm_text(node.args[0])), idx=(args[0].lenof.idx if args[0].lenof.idx is not None else self.enum_index_kind(args[0].lenof)) if args[0].lenof is not None else None,
                         arange_n=args[0])
         elif len(args) >= 2:
             out = out.w(symlen=('arange', norm_text(node)))
@@ -232,6 +242,22 @@ class NpCalls:
     def np_vstack(self, interp, st, args, kwargs, node):
         return self.np_concatenate(interp, st, args, kwargs, node, fn='vstack')
 
+    def np_column_stack(self, interp, st, args, kwargs, node):
+        # column_stack of 1-D arrays = vstack(...).T
+        v = self.np_concatenate(interp, st, args, kwargs, node, fn='vstack')
+        return self.array_attr(interp, st, v, 'T', node).w(transposed=None, store='fresh', fresh=True)
+
+    def np_union1d(self, interp, st, args, kwargs, node):
+        both = AV(ty='tuple', elts=[as_array(a) for a in args[:2]])
+        cat = self.np_concatenate(interp, st, [both], {}, node)
+        return self.np_unique(interp, st, [cat], {}, node)
+
+    def np_intersect1d(self, interp, st, args, kwargs, node):
+        u = self.np_unique(interp, st, [as_array(args[0])], {}, node)
+        return u.w(maybe_empty=True, deps=self.deps_of(args, kwargs))
+
+    np_setdiff1d = np_intersect1d
+
     def np_hstack(self, interp, st, args, kwargs, node):
         return self.np_concatenate(interp, st, args, kwargs, node, fn='hstack')
 
@@ -267,7 +293,7 @@ class NpCalls:
     def np_roll(self, interp, st, args, kwargs, node):
         x = as_array(args[0])
         sh = self.arg(args, kwargs, 1, 'shift')
-        return x.w(rolled=(cval(sh) if sh is not None and has_const(sh) else '?', norm_text(node.args[0]) if node.args else None),
+        return x.w(rolled=(cval(sh) if sh is not None and has_const(sh) else '?', interp.sx(node.args[0]) if node.args else None),
                    deps=self.deps_of(args, kwargs), store='fresh')
 
     def np_triu_indices_from(self, interp, st, args, kwargs, node):
@@ -303,7 +329,7 @@ class NpCalls:
                 interp.emit('abs_of_inverse_fft', node, arg=x)
             return out.w(geo=g, mono=m, idx=x.idx, fft=x.fft if name in ('real', 'conj') else None)
         if name in ('floor', 'ceil', 'round', 'around', 'rint'):
-            o = out.w(mono=m, intpart_of=(norm_text(node.args[0]) if node is not None and node.args else None, x))
+            o = out.w(mono=m, intpart_of=(interp.sx(node.args[0]) if node is not None and node.args else None, x))
             if is_fdiff(g) and name in ('round', 'around', 'rint'):
                 o = o.w(imgcorr=('round', x))
             return o
@@ -329,16 +355,16 @@ class NpCalls:
             return self.np_nonzero(interp, st, args, kwargs, node)
         cond, a, b = args[0], args[1], args[2]
         out = join(a if a.ty == 'ndarray' else as_array(a), b if b.ty == 'ndarray' else as_array(b)).w(deps=d, const=None, store='fresh', ty='ndarray')
-        if out.geo is None and a.geo is not None and b.geo is None and has_const(b):
+        if out.geo is None and a.geo is not None and b.geo is None and (has_const(b) or is_zero_fill(b)):
             out = out.w(geo=a.geo)
-        if out.geo is None and b.geo is not None and a.geo is None and has_const(a):
+        if out.geo is None and b.geo is not None and a.geo is None and (has_const(a) or is_zero_fill(a)):
             out = out.w(geo=b.geo)
         out = out.w(axes=a.axes if a.axes is not None else (b.axes if b.axes is not None else cond.axes))
         # single-step image correction idiom: where(d > 0.5, d - 1, d) / where(d < -0.5, d + 1, d)
         if cond.cmp is not None and a.bin is not None and node is not None and len(node.args) == 3:
             cop, cl, cr, ctext, _ = cond.cmp
             bo, bl, br, btext, _ = a.bin
-            dtext = norm_text(node.args[2])
+            dtext = interp.sx(node.args[2])
             if (ctext == btext == dtext and has_const(cr) and has_const(br) and cval(br) == 1 and bo in ('+', '-')
                     and abs(abs(cval(cr)) - 0.5) < 0.01 and cop in ('<', '>', '<=', '>=')):
                 direction = bo
@@ -356,12 +382,28 @@ class NpCalls:
                     interp.emit('image_correction', node, how='single', diff=b, base=b, direction=direction)
                     out = out.w(geo=ng)
         # closer idiom: where(x >= 1, 0, x)
-        if cond.cmp is not None and has_const(a) and cval(a) == 0 and b.geo == ('FRAC', 'C') and node is not None and len(node.args) == 3:
-            cop, cl, cr, ctext, _ = cond.cmp
-            if ctext == norm_text(node.args[2]) and cop in ('>=', '==') and has_const(cr) and cval(cr) == 1:
+        if cond.cmp is not None and is_zero_fill(a) and b.geo == ('FRAC', 'C') and node is not None and len(node.args) == 3:
+            if closes_wrap(cond.cmp, interp.sx(node.args[2])):
+                out = out.w(geo=('FRAC', 'W'))
+        # mirrored form: where(x < 1, x, 0) / where(x != 1, x, 0)
+        if cond.cmp is not None and is_zero_fill(b) and a.geo == ('FRAC', 'C') and node is not None and len(node.args) == 3:
+            nc = norm_cmp(cond.cmp)
+            if nc is not None and nc[0] in ('<', '!=') and nc[3] == interp.sx(node.args[1]) and cval(nc[2]) == 1:
                 out = out.w(geo=('FRAC', 'W'))
         if cond.cmp is not None:
             out = out.w(where_cond=cond.cmp)
+            # where(arr != marker, arange(n), 0) / where(arr == marker, 0, arange(n)): position of each valid entry along the last axis
+            for op_, pos_, zero_ in (('!=', a, b), ('==', b, a)):
+                if cond.cmp[0] != op_ or pos_.arange_n is None or not (has_const(zero_) and cval(zero_) == 0):
+                    continue
+                src, marker = cond.cmp[1], cond.cmp[2]
+                stext = cond.cmp[3]
+                if src.ty != 'ndarray':
+                    src, marker, stext = cond.cmp[2], cond.cmp[1], cond.cmp[4]
+                n = pos_.arange_n
+                axis_name = n.shape_of[0] if n.shape_of else None
+                if src.axes is not None and axis_name is not None and src.axes[-1] == axis_name and len(pos_.arange or []) == 1:
+                    out = out.w(axes=src.axes, idxtable=dict(src=stext, marker=marker, axis=axis_name, store=src.store, flipped=src.flipped))
         # np.where(arr != fill, np.arange(n), 0): index-selection table (ffill)
         return out
 
@@ -370,6 +412,7 @@ class NpCalls:
         d = self.deps_of(args, kwargs)
         idx = None
         at = None
+        nowrap = False
         if mask.cmp is not None:
             o, l, r, lt, rt = mask.cmp
             if o == '!=':
@@ -383,12 +426,22 @@ class NpCalls:
                             idx, at = ('FRAME', 'roll'), 1
                         else:
                             idx = ('FRAME', 'roll?')
+                # x[1:] != x[:-1]: element t compares frame t + 1 with frame t, no wrap-around comparison exists
+                if idx is None and l.shifted is not None and r.shifted is not None and l.shifted[1] == r.shifted[1]:
+                    a_, b_ = (l.shifted, r.shifted) if l.shifted[0] >= r.shifted[0] else (r.shifted, l.shifted)
+                    if a_[0] - b_[0] == 1 and b_[0] == 0 and a_[3] == 0 and b_[3] == 1:
+                        idx, at = ('FRAME', 'roll'), 0
+                        nowrap = True
         e = AV(ty='ndarray', dtype='int', idx=idx, at=at, maybe_empty=True, deps=d, store='fresh', axes=('k',),
-               nonzero_of=mask, rollwrap=True if idx == ('FRAME', 'roll') else None)
+               nonzero_of=mask, rollwrap=True if (idx == ('FRAME', 'roll') and not nowrap) else None)
         n = len(mask.axes) if mask.axes is not None else None
         if n is not None and n > 1:
             return AV(ty='tuple', elts=[e.w(idx=None, at=None) for _ in range(n)], deps=d, nonzero_of=mask)
         return AV(ty='tuple', elts=[e], deps=d, nonzero_of=mask, open_tuple=True if n is None else None)
+
+    def np_flatnonzero(self, interp, st, args, kwargs, node):
+        t = self.np_nonzero(interp, st, args, kwargs, node)
+        return t.elts[0].w(nonzero_of=args[0]) if t.elts else AV(ty='ndarray', dtype='int')
 
     def np_argwhere(self, interp, st, args, kwargs, node):
         mask = as_array(args[0])
@@ -469,7 +522,35 @@ class NpCalls:
     def np_maximum_accumulate(self, interp, st, args, kwargs, node):
         if 'out' in kwargs:
             interp.emit('store', node, kind='out=', base=kwargs['out'], index=None, value=None, stmt=None)
-        return as_array(args[0]).w(deps=self.deps_of(args, kwargs))
+        x = as_array(args[0])
+        out = x.w(deps=self.deps_of(args, kwargs))
+        if x.idxtable is not None:
+            ax = axis_arg(args, kwargs, 1)
+            if ax in ('none',):
+                ax = 0
+            along = x.axes[ax] if (x.axes is not None and isinstance(ax, int) and -len(x.axes) <= ax < len(x.axes)) else None
+            # running maximum of the valid positions = position of the most recent valid entry
+            out = out.w(runmax=True if along == x.idxtable['axis'] else None, idxtable=x.idxtable if along == x.idxtable['axis'] else None)
+        if 'out' not in kwargs:
+            out = out.w(store='fresh', fresh=True)
+        else:
+            tgt = next((k.value for k in node.keywords if k.arg == 'out'), None) if node is not None else None
+            if isinstance(tgt, ast.Name) and tgt.id in st.env:
+                st.env[tgt.id] = out
+        return out
+
+    def np_take_along_axis(self, interp, st, args, kwargs, node):
+        arr = as_array(args[0])
+        idx = self.arg(args, kwargs, 1, 'indices')
+        ax = axis_arg(args, kwargs, 2)
+        out = arr.only('ty', 'geo', 'idx', 'mono', 'dtype', 'taint', 'axes', 'origin').w(store='fresh', fresh=True, deps=self.deps_of(args, kwargs))
+        if idx is not None and idx.runmax and idx.idxtable is not None and node is not None and node.args:
+            t = idx.idxtable
+            along = arr.axes[ax] if (arr.axes is not None and isinstance(ax, int) and -len(arr.axes) <= ax < len(arr.axes)) else None
+            if t['src'] == interp.sx(node.args[0]) and along == t['axis']:
+                out = out.w(filled=dict(marker=t['marker'], axis=t['axis'], store=t['store'], inflip=bool(t['flipped'] and t['axis'] in t['flipped'])),
+                            flipped=arr.flipped)
+        return out
 
     # ------------------------------------------------------------------ reductions / linear algebra
     def np_reduce(self, interp, st, name, args, kwargs, node, axis_pos=1):
@@ -480,6 +561,13 @@ class NpCalls:
         cum = name in ('cumsum', 'cumprod')
         if cum:
             new_axes = x.axes
+        kd = kwargs.get('keepdims')
+        if kd is not None and not (has_const(kd) and not cval(kd)):
+            # keepdims: the reduced axes stay as axes of length one
+            if has_const(kd) and x.axes is not None and '?' not in removed:
+                new_axes = tuple('new' if a in removed else a for a in x.axes)
+            else:
+                new_axes = None
         g = x.geo
         ng = g
         xyz_removed = XYZ in removed or '*all*' in removed and False
